@@ -23,7 +23,7 @@ translation unit that includes the two headers; the (un-instantiated) template b
  R5  shift loops  `while (V >>= s) { R++ | R-- | R += c | R *= c | R <<= c ... }` (s, c literals, s >= 1) runs
                   n := Z.quot (Z.log2 V) s times for V >= 0 (never ends for V < 0: outside the domain); emitted in closed form
                   R + n, R - n, R + c*n, R * c^n, R * 2^(c*n), and V := 0 afterwards.
- R6  other loops  `while (V >= c | V > c) { V /= d; simple assignments }` (c >= 0, d >= 2 literals) and
+ R6  other loops  `while (V >= c | V > c) { V /= d; simple assignments }` (literals; the test implies V >= 1; 2 <= d <= 16) and
                   `while (V-- > c) simple assignment(s) not to V` become a Fixpoint over the assigned variables with fuel FUEL
                   (a loop that runs longer is not modelled: the first kind runs <= 31 times on a 32-bit int, the second kind is
                   the 3^level loop of getNumPoints<pwc>, which overflows int after 20 rounds).
@@ -70,14 +70,11 @@ def clang_ast(repo, cfgdir, workdir, flt):
     p = subprocess.run(cmd, capture_output=True, text=True, timeout=120)
     if p.returncode != 0:
         raise TranslatorError("clang rejects the headers:\n" + p.stderr[-2000:])
-    dec, i, out, txt = json.JSONDecoder(), 0, [], p.stdout
-    while True:
-        while i < len(txt) and txt[i].isspace():
-            i += 1
-        if i >= len(txt):
-            return out
-        o, i = dec.raw_decode(txt, i)
+    dec, i, out, txt = json.JSONDecoder(), 0, [], p.stdout.rstrip()      # a sequence of JSON objects, one per matching declaration
+    while i < len(txt):
+        o, i = dec.raw_decode(txt, len(txt) - len(txt[i:].lstrip()))
         out.append(o)
+    return out
 
 
 def strip(n):
@@ -121,23 +118,18 @@ class Fn:
 
     # ------------------------------------------------------------------ expressions
     def is_rule(self, n):
+        """the enumerator denoted by the template parameter / by erule::x, else None"""
         n = strip(n)
-        if n.get("kind") != "DeclRefExpr":
-            return None
-        rd = n["referencedDecl"]
-        if rd["kind"] == "NonTypeTemplateParmDecl":
-            if self.rule is None:
-                self.err("template parameter outside a template", n)
-            return self.rule
-        if rd["kind"] == "EnumConstantDecl" and rd["name"] in RULES and "erule" in n.get("type", {}).get("qualType", ""):
+        rd = n.get("referencedDecl", {}) if n.get("kind") == "DeclRefExpr" else {}
+        if rd.get("kind") == "NonTypeTemplateParmDecl":
+            return self.rule if self.rule is not None else self.err("template parameter outside a template", n)
+        if rd.get("kind") == "EnumConstantDecl" and rd["name"] in RULES and "erule" in n.get("type", {}).get("qualType", ""):
             return rd["name"]
         return None
 
     def lit(self, n):
         n = strip(n)
-        if n.get("kind") == "IntegerLiteral":
-            return int(n["value"])
-        return None
+        return int(n["value"]) if n.get("kind") == "IntegerLiteral" else None
 
     def expr(self, n):
         """int-valued expression -> Gallina term of type Z"""
@@ -362,8 +354,9 @@ class Fn:
                 ok = all(a[0] != v for a in asg)
                 cnd = "%d <? %s" % (self.lit(c["inner"][1]), v)
             elif lhs.get("kind") == "DeclRefExpr":
-                v, cnd = self.var(lhs), self.cond(c)
-                ok = [a for a in asg if a[0] == v] in ([(v, "Z.quot %s %d" % (v, d))] for d in range(2, 17))
+                v, cnd = self.var(lhs), self.cond(c)                   # ends only when the loop needs V >= 1 to go on
+                ok = self.lit(c["inner"][1]) + (c["opcode"] == ">") >= 1 and \
+                    [a for a in asg if a[0] == v] in ([(v, "Z.quot %s %d" % (v, d))] for d in range(2, 17))
             else:
                 self.err("loop condition (R6)", c)
             if not ok:
@@ -441,11 +434,8 @@ def generate(repo, cfgdir, workdir):
     if consts != RULES:
         raise TranslatorError("enum RuleLocal::erule is %s, the model Model.RuleLocal.erule has %s" % (consts, RULES))
     parts, arity = [], {}
-    for f in HELPERS:
-        t, arity[f] = translate(mu, f, set(parts_names(parts)))
-        parts.append((f, t))
-    for f in FUNCS:
-        t, arity[f] = translate(rl, f, set(HELPERS))
+    for f in HELPERS + FUNCS:           # a helper may call the helpers before it, a RuleLocal function every helper
+        t, arity[f] = translate(mu if f in HELPERS else rl, f, set(HELPERS[:HELPERS.index(f)] if f in HELPERS else HELPERS))
         parts.append((f, t))
     rules = __doc__.split("TRUSTED translation rules (restated in the generated file):")[1].split("usage:")[0].replace("FUEL", "FUEL = %d" % FUEL, 1)
     head = ("(* GENERATED by translator/rulelocal.py from the working tree — do not edit.\n"
@@ -456,17 +446,9 @@ def generate(repo, cfgdir, workdir):
     return head + "\n".join(t for _f, t in parts), {"source_hash": h, "arity": arity, "functions": HELPERS + FUNCS}
 
 
-def parts_names(parts):
-    return [f for f, _t in parts]
-
-
 def write_if_changed(path, text):
-    try:
-        with open(path) as fh:
-            if fh.read() == text:
-                return False
-    except OSError:
-        pass
+    if os.path.exists(path) and open(path).read() == text:
+        return False
     os.makedirs(os.path.dirname(path), exist_ok=True)
     with open(path, "w") as fh:
         fh.write(text)
